@@ -11,7 +11,17 @@ What runs on every invocation
      FlowIRExperimentConfiguration.parametrize through WorkflowGraph.graphFromPackage).
      Oracle: all dumps of one package are equal, and the user variables are the ones obtained by layering the
      files in the order given, the last one winning.
-  B. model correspondence: Layer.loadVars (Lean, drv-c15) predicts the layered user variables and the value
+     DSL 2.0 packages (conf/dsl.yaml) are generated as well: several component templates carrying the same
+     multi-key environment with the keys written in different orders (parameter default, literal, passed as an
+     argument, forwarded from a workflow parameter), templates instantiated several times, the same step names in
+     several nested workflows (so that the -I, -II numbering is exercised), output references between steps.
+  A'. DSL 2.0, in this process: every generated namespace is converted with the real namespace_to_flowir from
+     the document and from several copies whose mappings are permuted (equal documents): the FlowIR must be
+     the same (names, stages, references, command.environment of every component, the environments).
+  B. model correspondence: DslLoad.assignNames / assignEnvs / registered (Lean, drv-c15 op "dsl") predict, from the
+     step names and environments of the component instances in the order the real ScopeStack visits them, the
+     names, command.environment and the registered environments that the real namespace_to_flowir produces.
+     Layer.loadVars (Lean, drv-c15) predicts the layered user variables and the value
      injected per stage; Layer.serialize predicts the buffer hashed by
      ComponentSpecification._memoization_info_to_hash (compared through md5) on random nested infos with permuted
      dictionaries.
@@ -22,6 +32,7 @@ import copy
 import hashlib
 import json
 import os
+import random
 import shutil
 import subprocess
 import sys
@@ -177,6 +188,345 @@ def refs_have_component(refs):
     return any(not r.startswith("data/") for r in refs)
 
 
+# ----------------------------------------------------------------------------------------
+# generator of DSL 2.0 packages
+# ----------------------------------------------------------------------------------------
+
+DSL_STEPS = ["work", "last", "prep", "work-I", "stage1.sim", "a.b", "x_y", "run", "last-II"]
+DSL_ENV_KEYS = ["ALPHA", "BETA", "OMP_NUM_THREADS", "LD_LIBRARY_PATH", "Z", "MY_HOME"]
+DSL_ENV_VALUES = ["1", "4", "/opt/tool/bin", "$FOO/bin", "lit", "${BAR}x", "$ALPHA/bin", "${BETA}:lib"]
+DSL_WORDS = ["hello", "a b", "x", "0.5", "run-1"]
+
+
+def shuffled_dict(rng, d):
+    ks = list(d)
+    rng.shuffle(ks)
+    return {k: d[k] for k in ks}
+
+
+def gen_dsl_env(rng, bases):
+    """one of a few environments, written with its keys in a random order; now and then a variant"""
+    e = shuffled_dict(rng, rng.choice(bases))
+    r = rng.random()
+    if r < 0.10:
+        e[rng.choice(list(e))] = "other"             # a different environment
+    elif r < 0.20:
+        e["UNSET_" + rng.choice("AB")] = None         # None entries do not count
+        e = shuffled_dict(rng, e)
+    elif r < 0.25 and "OMP_NUM_THREADS" in e and e["OMP_NUM_THREADS"].isdigit():
+        e["OMP_NUM_THREADS"] = int(e["OMP_NUM_THREADS"])   # str(value) counts
+    return e
+
+
+def gen_dsl_doc(rng):
+    nb = rng.randint(1, 3)
+    bases = []
+    for _ in range(nb):
+        ks = rng.sample(DSL_ENV_KEYS, rng.randint(2, 4))
+        bases.append({k: rng.choice(DSL_ENV_VALUES) for k in ks})
+    comps, wfs = [], []
+    sig = {}     # template name -> {"params": {name: has_default}, "wf": bool, "paths": [relative paths of component steps]}
+    for i in range(rng.randint(2, 4)):
+        name = "c-" + "abcd"[i]
+        params = [{"name": "msg", "default": rng.choice(DSL_WORDS)}]
+        has_src = rng.random() < 0.55
+        if has_src:
+            params.append({"name": "src"})
+        has_src2 = has_src and rng.random() < 0.35
+        if has_src2:
+            params.append({"name": "src2", "default": "nothing"})
+        command = {"executable": rng.choice(["echo", "cat", "ls", "/bin/true"]),
+                   "arguments": "%(msg)s" + (" %(src)s" if has_src else "") + (" -x %(src2)s" if has_src2 else "")}
+        variables = None
+        if rng.random() < 0.3:
+            variables = {"k_" + c: rng.choice(DSL_WORDS) for c in rng.sample("xyz", rng.randint(1, 3))}
+            command["arguments"] += "".join(" %%(%s)s" % k for k in variables)
+        style = rng.choice(["param", "param", "param", "param", "literal", "literal", "none", "unset", "param-none"])
+        if style == "param":
+            params.append({"name": "environment", "default": gen_dsl_env(rng, bases)})
+            command["environment"] = "%(environment)s"
+        elif style == "param-none":
+            params.append({"name": "environment", "default": "none"})
+            command["environment"] = "%(environment)s"
+        elif style == "literal":
+            command["environment"] = gen_dsl_env(rng, bases)
+        elif style == "none":
+            command["environment"] = "none"
+        rng.shuffle(params)
+        t = {"signature": {"name": name, "parameters": params}, "command": command}
+        if variables:
+            t["variables"] = variables
+        if rng.random() < 0.2:
+            t["resourceRequest"] = {"numberThreads": rng.randint(1, 4)}
+        if rng.random() < 0.2:
+            t["workflowAttributes"] = {"shutdownOn": rng.sample(["KnownIssue", "Killed", "SystemIssue"], 2)}
+        comps.append(t)
+        sig[name] = {"params": {q["name"]: "default" in q for q in params}, "wf": False, "paths": [[]]}
+    depth = rng.randint(1, 3)
+    pool = [c["signature"]["name"] for c in comps]
+    for lv in range(1, depth + 1):
+        root = lv == depth
+        level_names = []
+        for i in range(1 if root else rng.randint(1, 2)):
+            name = "main" if root else "w%d-%s" % (lv, "xy"[i])
+            params = []
+            if root:
+                params.append({"name": "foo", "default": rng.choice(DSL_WORDS)})
+                if rng.random() < 0.5:
+                    params.append({"name": "bar", "default": rng.choice(DSL_WORDS)})
+            else:
+                if rng.random() < 0.5:
+                    params.append({"name": "src"})
+                if rng.random() < 0.3:
+                    params.append({"name": "msg", "default": rng.choice(DSL_WORDS)})
+            if rng.random() < 0.5:
+                params.append({"name": "env", "default": gen_dsl_env(rng, bases)})
+            own = {q["name"] for q in params}
+            step_names = rng.sample(DSL_STEPS, rng.randint(1, 4))
+            if rng.random() < 0.03:
+                step_names[-1] = "step2"                      # not a component name: a naming error
+            steps, execute, paths = {}, [], []
+            prefer = [n for n in pool if sig[n]["wf"]] if lv > 1 else []
+            for j, sn in enumerate(step_names):
+                tn = rng.choice(prefer) if (j == 0 and prefer) else rng.choice(pool)
+                steps[sn] = tn
+                args = {}
+                tp = sig[tn]["params"]
+                if "msg" in tp and rng.random() < 0.5:
+                    lit = [q for q in ("foo", "bar", "msg") if q in own]
+                    args["msg"] = ("%%(%s)s" % rng.choice(lit)) if (lit and rng.random() < 0.6) else rng.choice(DSL_WORDS)
+                if "src2" in tp and paths and rng.random() < 0.7:
+                    loc = "/".join(rng.choice(paths))
+                    args["src2"] = rng.choice(["<%s>:ref", "<%s>/out.txt:ref", "<%s>/out.txt:output"]) % loc
+                if "src" in tp:
+                    sources = list(paths)
+                    r = rng.random()
+                    if "src" in own and (r < 0.3 or not sources):
+                        args["src"] = "%(src)s"
+                    elif sources:
+                        loc = "/".join(rng.choice(sources))
+                        args["src"] = rng.choice(["<%s>:ref", "<%s>:output", "<%s>/out.txt:ref", "<%s>/d/f.csv:copy"]) % loc
+                    else:
+                        args["src"] = "nothing"
+                for en in ("environment", "env"):
+                    if en in tp:
+                        r = rng.random()
+                        if r < 0.35:
+                            args[en] = gen_dsl_env(rng, bases)
+                        elif r < 0.55 and "env" in own:
+                            args[en] = "%(env)s"
+                        elif r < 0.60:
+                            args[en] = "none" if en == "environment" else {}
+                execute.append({"target": "<%s>" % sn, "args": shuffled_dict(rng, args)})
+                for pth in sig[tn]["paths"]:
+                    paths.append([sn] + pth)
+            rng.shuffle(execute)                                 # a list: the visiting order follows it
+            rng.shuffle(params)
+            wfs.append({"signature": {"name": name, "parameters": params}, "steps": shuffled_dict(rng, steps),
+                        "execute": execute})
+            sig[name] = {"params": {q["name"]: "default" in q for q in params}, "wf": True, "paths": paths}
+            level_names.append(name)
+        pool = pool + level_names
+    entry_args = {}
+    for q in wfs[-1]["signature"]["parameters"]:
+        if q["name"] in ("foo", "bar") and rng.random() < 0.6:
+            entry_args[q["name"]] = rng.choice(DSL_WORDS)
+    rng.shuffle(wfs)
+    rng.shuffle(comps)
+    return {"entrypoint": {"entry-instance": "main", "execute": [{"target": "<entry-instance>", "args": entry_args}]},
+            "workflows": wfs, "components": comps}
+
+
+def gen_dsl_package(rng, jid):
+    doc = gen_dsl_doc(rng)
+    files = {}
+    for i in range(rng.randint(0, 2)):
+        files["data/%s" % rng.choice(["in.txt", "b.dat", "a.dat", "Z.txt"])] = "content %d\n" % i
+    main = [w for w in doc["workflows"] if w["signature"]["name"] == "main"][0]
+    lit = [q["name"] for q in main["signature"]["parameters"] if q["name"] in ("foo", "bar")]
+    vfiles = []
+    for i in range(rng.choice([0, 0, 2, 3])):
+        g = {v: "u%d-%s" % (i, rng.choice(["1", "low", "x"])) for v in rng.sample(lit, rng.randint(1, len(lit)))}
+        vfiles.append({"name": "%s%d.yaml" % (rng.choice(["vars", "ovr", "a", "zz"]), i), "doc": {"global": g}})
+    order = [v["name"] for v in vfiles]
+    rng.shuffle(order)
+    if len(order) >= 2 and rng.random() < 0.3:
+        order.append(order[0])
+    return {"id": jid, "kind": "dsl", "doc": doc, "files": files, "variable_files": vfiles, "variable_order": order,
+            "platform": None, "nstages": 1}
+
+
+# two templates carry the same two variables, written in opposite orders: one environment, whatever the order in
+# which a copy of the document lists the keys
+MINIMAL_DSL = {"id": "minimal-dsl", "kind": "dsl", "files": {}, "variable_files": [], "variable_order": [],
+               "platform": None, "nstages": 1,
+               "doc": {"entrypoint": {"entry-instance": "main", "execute": [{"target": "<entry-instance>", "args": {}}]},
+                       "workflows": [{"signature": {"name": "main", "parameters": []},
+                                      "steps": {"first": "producer", "second": "consumer"},
+                                      "execute": [{"target": "<first>", "args": {}},
+                                                  {"target": "<second>", "args": {"text": "<first>:output"}}]}],
+                       "components": [
+                           {"signature": {"name": "producer", "parameters": [
+                               {"name": "environment", "default": {"ALPHA": "1", "BETA": "/opt/tool/bin"}}]},
+                            "command": {"executable": "echo", "arguments": "hello", "environment": "%(environment)s"}},
+                           {"signature": {"name": "consumer", "parameters": [
+                               {"name": "text"},
+                               {"name": "environment", "default": {"BETA": "/opt/tool/bin", "ALPHA": "1"}}]},
+                            "command": {"executable": "echo", "arguments": "%(text)s",
+                                        "environment": "%(environment)s"}}]}}
+
+
+# ----------------------------------------------------------------------------------------
+# DSL 2.0 in this process: equal documents -> equal FlowIR; model of the two naming loops
+# ----------------------------------------------------------------------------------------
+
+def permute_keys(obj, rnd):
+    """same value, different insertion order of every mapping (lists keep their order: they are data)"""
+    if isinstance(obj, dict):
+        keys = list(obj.keys())
+        rnd.shuffle(keys)
+        return {k: permute_keys(obj[k], rnd) for k in keys}
+    if isinstance(obj, list):
+        return [permute_keys(x, rnd) for x in obj]
+    return obj
+
+
+def sorted_keys(obj):
+    return json.loads(json.dumps(obj, sort_keys=True))
+
+
+def dsl_convert(doc):
+    """the real conversion; returns a canonical view of the FlowIR or the kind of error"""
+    import experiment.model.frontends.dsl as D
+    import experiment.model.errors as E
+    try:
+        ns = D.Namespace(**copy.deepcopy(doc))
+    except Exception as exc:  # noqa
+        return {"error": "namespace:" + type(exc).__name__}
+    try:
+        raw = D.namespace_to_flowir(ns).raw()
+    except E.DSLInvalidError as exc:
+        msgs = sorted(str(e)[:300] for e in exc.underlying_errors)
+        kind = "invalid-name" if any("cannot be the name of a component" in m for m in msgs) else "invalid"
+        return {"error": kind, "n_errors": len(msgs), "_messages": msgs[:4]}
+    except Exception as exc:  # noqa
+        return {"error": type(exc).__name__, "_messages": [str(exc)[:300]]}
+    comps = []
+    for c in raw.get("components", []):
+        c = json.loads(json.dumps(c, sort_keys=True, default=str))
+        comps.append(c)
+    rest = {k: v for k, v in raw.items() if k != "components"}
+    return {"components": comps, "rest": json.loads(json.dumps(rest, sort_keys=True, default=str))}
+
+
+def dsl_visit(doc):
+    """what the two naming loops of namespace_to_flowir read, from the real code: the component instances in the order
+    ScopeStack visits them, with step name and environment; None when that cannot be observed"""
+    import experiment.model.frontends.dsl as D
+    try:
+        ns = D.Namespace(**copy.deepcopy(doc))
+        scopes = D.ScopeStack.from_namespace(namespace=ns, override_entrypoint_args=None)
+        out = []
+        for _loc, scope in scopes.scopes.items():
+            if isinstance(scope.template, D.Component):
+                cf = D.digest_dsl_component(scope=scope, template_dsl_location=[], scopes=scopes)
+                if cf.errors:
+                    return None
+                env = cf.environment
+                if env is not None and not isinstance(env, dict):
+                    return None
+                out.append({"loc": list(scope.location), "step": cf.step_name, "template": scope.template.signature.name,
+                            "env": None if env is None else [[str(k), None if v is None else str(v)]
+                                                              for k, v in env.items()]})
+        return out
+    except Exception:  # noqa
+        return None
+
+
+def dsl_features(visit, view):
+    """(tags, non-trivial?)"""
+    tags = []
+    if visit is None or "error" in view:
+        return ["dsl:" + str(view.get("error", "unobserved"))], False
+    names = [c.get("name") for c in view["components"]]
+    renamed = sum(1 for v, n in zip(visit, names) if n != v["step"].split(".", 1)[-1] and n != v["step"])
+    by_env = {}
+    for v, c in zip(visit, view["components"]):
+        en = (c.get("command") or {}).get("environment")
+        if v["env"] and isinstance(en, str) and en.startswith("env"):
+            by_env.setdefault(en, []).append(sum(1 for _k, val in v["env"] if val is not None))
+    shared = sum(1 for o in by_env.values() if len(o) >= 2)
+    # the copies of the document write such an environment with its keys in different orders
+    reordered = sum(1 for o in by_env.values() if len(o) >= 2 and min(o) >= 2)
+    if renamed:
+        tags.append("dsl:renamed-duplicates")
+    if shared:
+        tags.append("dsl:shared-environment")
+    if reordered:
+        tags.append("dsl:shared-multi-key-environment")
+    if any(v["env"] is not None and any(x[1] is None for x in v["env"]) for v in visit):
+        tags.append("dsl:None-entry")
+    tags.append("dsl:instances:%d" % min(len(visit), 8))
+    return tags, bool(renamed or reordered)
+
+
+def check_dsl_inprocess(ctx, docs, nperm, record=True, extra_seeds=()):
+    failures = []
+    reqs, slots = [], []
+    for di, doc in enumerate(docs):
+        doc = sorted_keys(doc)
+        base = dsl_convert(doc)
+        visit = dsl_visit(doc)
+        seeds = list(extra_seeds) + [ctx.rng.randrange(1 << 30) for _ in range(nperm)]
+        case = {"kind": "dsl-inprocess", "doc": doc, "perm_seeds": seeds}
+        tags, nontrivial = dsl_features(visit, base)
+        if record:
+            ctx.case(case, nontrivial=nontrivial, tags=["dsl-inprocess"] + tags)
+        # oracle: equal documents (mappings written in another order) convert to the same FlowIR
+        first = None
+        for sd in seeds:
+            pdoc = permute_keys(doc, random.Random(sd))
+            other = dsl_convert(pdoc)
+            if first is None:
+                first = (pdoc, other)
+            if strip_private(other) != strip_private(base):
+                d = diff_paths(strip_private(base), strip_private(other))
+                failures.append(("dsl-conversion-depends-on-mapping-order", case,
+                                 {"perm_seed": sd, "permuted_document_yaml_order": json.dumps(pdoc),
+                                  "differences": d}))
+                break
+        # the model is asked about the first permuted copy (its environments are written in arbitrary key orders)
+        if first is not None and record:
+            pvisit = dsl_visit(first[0])
+            if pvisit is not None:
+                reqs.append({"op": "dsl", "steps": [v["step"] for v in pvisit], "envs": [v["env"] for v in pvisit]})
+                slots.append((dict(case, model_asked_about_perm_seed=seeds[0]), first[1], pvisit))
+    mouts = ctx.model(reqs) if (reqs and ctx.driver is not None) else None
+    if mouts is not None:
+        for (case, base, visit), m in zip(slots, mouts):
+            m_invalid = any(n == "invalid" for n in m["names"])
+            if base.get("error") == "invalid-name" or (m_invalid and "error" not in base):
+                ctx.compare("namespace_to_flowir naming error == DslLoad.assignNames has an invalid name", case,
+                            {"invalid": m_invalid}, {"invalid": base.get("error") == "invalid-name"})
+                continue
+            if "error" in base:
+                continue
+            comps = base["components"]
+            ctx.compare("namespace_to_flowir (stage, name) == DslLoad.assignNames", case,
+                        {"names": m["names"]}, {"names": [[c.get("stage", 0), c.get("name")] for c in comps]})
+            ctx.compare("namespace_to_flowir command.environment == DslLoad.assignEnvs", case,
+                        {"envs": m["envs"]}, {"envs": [(c.get("command") or {}).get("environment") for c in comps]})
+            envs = ((base["rest"].get("environments") or {}).get("default") or {})
+            ctx.compare("namespace_to_flowir environments == DslLoad.registered", case,
+                        {"registered": {n: sorted(map(list, e)) for n, e in m["registered"]}},
+                        {"registered": {n: sorted([str(k), None if v is None else str(v)] for k, v in (e or {}).items())
+                                        for n, e in envs.items()}})
+    if record:
+        for f in failures:
+            ctx.fail(*f)
+    return failures
+
+
 MINIMAL = {"id": "minimal", "kind": "flowir",
            "doc": {"variables": {"default": {"global": {"v": "pkg"}}},
                    "components": [{"name": "c", "stage": 0, "command": {"executable": "echo", "arguments": "%(v)s"}}]},
@@ -209,15 +559,19 @@ def child_env(hashseed):
     return env
 
 
-def run_children(jobs, hashseeds, rng, scratch):
-    """returns {hashseed: {job id: dump}}"""
+def run_children(jobs, hashseeds, rng, scratch, seeds=None):
+    """returns {hashseed: {job id: dump}}; `seeds` ("<child index>/<job id>" -> [key seed, file order seed]) is filled
+    with the permutation seeds used, or says which ones to use again"""
     procs = []
+    seeds = {} if seeds is None else seeds
     for idx, hs in enumerate(hashseeds):
         js = []
         for j in jobs:
             j2 = dict(j)
-            j2["doc_key_seed"] = rng.randrange(1 << 30)
-            j2["file_order_seed"] = rng.randrange(1 << 30)
+            key = "%d/%s" % (idx, j["id"])
+            if key not in seeds:
+                seeds[key] = [rng.randrange(1 << 30), rng.randrange(1 << 30)]
+            j2["doc_key_seed"], j2["file_order_seed"] = seeds[key]
             js.append(j2)
         jp = os.path.join(scratch, "jobs-%d.json" % idx)
         op = os.path.join(scratch, "out-%d.json" % idx)
@@ -259,6 +613,11 @@ def diff_paths(a, b, path="", out=None, limit=8):
                 out.append({"path": path + "/" + k, "a": a.get(k, "<absent>"), "b": b.get(k, "<absent>")})
             else:
                 diff_paths(a[k], b[k], path + "/" + k, out, limit)
+            if len(out) >= limit:
+                break
+    elif isinstance(a, list) and isinstance(b, list) and len(a) == len(b):
+        for i, (x, y) in enumerate(zip(a, b)):
+            diff_paths(x, y, path + "/%d" % i, out, limit)
             if len(out) >= limit:
                 break
     elif a != b:
@@ -313,10 +672,26 @@ def component_level_names(job):
     return out
 
 
+def difference_reproduces(job, hashseeds, seeds, scratch):
+    """the same job once more in fresh child processes with the same hash seeds and the same permutations: a
+    difference that is a function of hash seed / mapping order / file creation order shows again; one that came from
+    the machine (a swallowed OSError or MemoryError under load, ...) does not"""
+    d = tempfile.mkdtemp(prefix="confirm-", dir=scratch)
+    try:
+        sub = {k: v for k, v in seeds.items() if k.split("/", 1)[1] == job["id"]}
+        r2 = run_children([job], hashseeds, None, d, seeds=sub)
+        first = strip_private(r2[hashseeds[0]][job["id"]])
+        return any(strip_private(r2[hs][job["id"]]) != first for hs in hashseeds[1:])
+    finally:
+        shutil.rmtree(d, ignore_errors=True)
+
+
 def check_jobs(ctx, jobs, hashseeds, scratch, record=True):
     """runs the children, the oracle and the model comparison; returns the list of (what, job, detail) failures"""
     failures = []
-    res = run_children(jobs, hashseeds, ctx.rng, scratch)
+    seeds = {}
+    confirmed = {}
+    res = run_children(jobs, hashseeds, ctx.rng, scratch, seeds=seeds)
     reqs = [model_layer_request(j) for j in jobs]
     mouts = ctx.model(reqs) if ctx.driver is not None else None
     for ji, job in enumerate(jobs):
@@ -333,7 +708,8 @@ def check_jobs(ctx, jobs, hashseeds, scratch, record=True):
                            "variable-files:%d" % nvf, "platform:%s" % job["platform"],
                            "dup-variable-file" if len(job["variable_order"]) != nvf else "no-dup"] +
                           (["replicated"] if any("replicate" in (c.get("workflowAttributes") or {})
-                                                  for c in job["doc"]["components"]) else []))
+                                                  for c in job["doc"]["components"]) else []) +
+                          ["package:" + job.get("kind", "flowir")])
         for hs in hashseeds:
             if "child_error" in dumps[hs]:
                 from harness.common import InfraError
@@ -343,12 +719,23 @@ def check_jobs(ctx, jobs, hashseeds, scratch, record=True):
             if dumps[hs] != first:
                 d = diff_paths(first, dumps[hs])
                 ps = [x["path"] for x in d]
-                if any(("/conf_init" in x or "/conf_parametrize" in x or "user_variables" in x) for x in ps):
+                if job.get("kind") == "dsl" and not any("user_variables" in x for x in ps):
+                    slug = "dsl-package-load-differs-across-processes"
+                elif any(("/conf_init" in x or "/conf_parametrize" in x or "user_variables" in x) for x in ps):
                     slug = "variable-layering-differs-across-processes"
                 elif ps and all("/environment" in x for x in ps):
                     slug = "environments-differ-across-processes"
                 else:
                     slug = "load-differs-across-processes"
+                # the first differences of a kind are run once more (same seeds, fresh processes) before they count
+                if confirmed.get(slug, 0) < 2:
+                    if difference_reproduces(job, hashseeds, seeds, scratch):
+                        confirmed[slug] = confirmed.get(slug, 0) + 1
+                    else:
+                        ctx.tag("difference-not-reproduced-with-the-same-seeds")
+                        ctx.notes.append("C15: job %s differed between child processes (%s) but not when run again with "
+                                         "the same hash seeds and permutations: %s" % (job["id"], slug, json.dumps(d)[:600]))
+                        break
                 failures.append((slug, case,
                                  {"hashseed_a": hashseeds[0], "hashseed_b": hs, "differences": d}))
                 break
@@ -382,6 +769,10 @@ def check_jobs(ctx, jobs, hashseeds, scratch, record=True):
                         continue
                     ctx.compare("layer_many_variable_files(order given) == Layer.loadVars [%s]" % where, case,
                                 {"vars": mvars}, {"vars": flat_vars(w["user_variables"])})
+                    if job.get("kind") == "dsl":
+                        # user variables of a DSL 2.0 package override the arguments of the entry instance; there
+                        # is no per-stage injection to compare
+                        continue
                     # value injected per stage, for names that no component-level variable shadows
                     cl = component_level_names(job)
                     qs = reqs[ji]["queries"]
@@ -494,6 +885,16 @@ def make_shrinker(ctx, scratch_root):
     def shrink(what, case):
         seeds = list(range(8))
         tries = []
+        if case.get("kind") == "dsl-inprocess":
+            # the two-template namespace, then the namespace itself without one of its templates' extras
+            for doc in (MINIMAL_DSL["doc"],):
+                fs = check_dsl_inprocess(ctx, [doc], nperm=16, record=False)
+                hit = [f for f in fs if f[0] == what]
+                if hit:
+                    return hit[0][1]
+            return case
+        if case.get("kind") == "dsl":
+            tries.append(copy.deepcopy(MINIMAL_DSL))
         if len(set(case.get("variable_order", []))) >= 2:
             tries.append(dict(MINIMAL))
             # the same package with two of its files only
@@ -528,17 +929,31 @@ def run(ctx):
                 "sometimes one path given twice) + platform, loaded in %d processes with distinct PYTHONHASHSEED, "
                 "mapping keys permuted and files created in a different order in each; non-trivial = the package "
                 "loads and has >= 2 components or >= 2 distinct variable files; plus random memoization infos "
-                "(nested dictionaries/lists, permuted)" % (4 if quick else 16))
+                "(nested dictionaries/lists, permuted); plus generated DSL 2.0 packages (2-4 component templates whose "
+                "environments - parameter default, literal, execute argument, forwarded workflow parameter - are drawn "
+                "from 1-3 multi-key mappings written in random key orders, with None entries and int values now and "
+                "then; 1-3 levels of workflows, templates instantiated several times, step names from a small pool so "
+                "that nested workflows repeat them, output references between steps, 0-3 user variable files) loaded "
+                "in the same child processes; plus DSL 2.0 namespaces converted in this process from the document and "
+                "from %d copies with permuted mappings, non-trivial = converts and (a duplicate step name was "
+                "renamed or >= 2 instances share an environment of >= 2 variables)" % (4 if quick else 16,
+                                                                                      4 if quick else 8))
     ctx.assumptions = ["the order in which a directory lists its entries is varied only through the creation order "
                        "of the files (same file system for all children)",
                        "launch environment of all children is identical (set by the harness)"]
     ctx.trusted.append("C15: hash-seed independence is established by comparison of canonical dumps across child "
                        "processes (harness/c15_child.py), not by a theorem; PyYAML load/dump of the generated documents")
+    ctx.trusted.append("C15: the order in which ScopeStack visits the component instances of a DSL 2.0 namespace, their "
+                       "step names and environments are read from the real code (ScopeStack.from_namespace, "
+                       "digest_dsl_component) and fed to the model of the two naming loops")
     hashseeds = [0, 1, 2, 3] if quick else list(range(16))
     # vary the seeds with VERIF_SEED but keep 0 in (hash randomisation disabled)
     hashseeds = [0] + [(ctx.seed * 97 + 1000 * i + i) % 4294967295 for i in range(1, len(hashseeds))]
     njobs = 40 if quick else 160
-    jobs = [copy.deepcopy(MINIMAL), copy.deepcopy(MINIMAL_DUP), copy.deepcopy(MINIMAL_ENVCASE)] + [gen_package(ctx.rng, "j%d" % i) for i in range(njobs)]
+    ndsl = 20 if quick else 80
+    jobs = [copy.deepcopy(MINIMAL), copy.deepcopy(MINIMAL_DUP), copy.deepcopy(MINIMAL_ENVCASE),
+            copy.deepcopy(MINIMAL_DSL)] + [gen_package(ctx.rng, "j%d" % i) for i in range(njobs)] + \
+           [gen_dsl_package(ctx.rng, "d%d" % i) for i in range(ndsl)]
     corpus_dir = os.path.join(os.path.dirname(HERE), "corpus", "C15")
     if os.path.isdir(corpus_dir):
         for fn in sorted(os.listdir(corpus_dir)):
@@ -552,6 +967,8 @@ def run(ctx):
         ctx.classifiers = CLASSIFIERS
         ctx.shrinker = make_shrinker(ctx, scratch)
         check_jobs(ctx, jobs, hashseeds, scratch)
+        check_dsl_inprocess(ctx, [MINIMAL_DSL["doc"]] + [gen_dsl_doc(ctx.rng) for _ in range(200 if quick else 1500)],
+                            nperm=4 if quick else 8)
         check_serialize(ctx, 600 if quick else 6000)
         ctx.extra["hashseeds"] = hashseeds
         # the shrinker (if any failure) runs inside finish(): keep scratch until then
@@ -590,6 +1007,9 @@ def replay(ctx, doc):
             if G.ComponentSpecification._memoization_info_to_hash(copy.deepcopy(y)) != h:
                 ctx.fail("memoization-hash-depends-on-dictionary-order", case, {"permuted": y})
                 break
+        return
+    if case.get("kind") == "dsl-inprocess":
+        check_dsl_inprocess(ctx, [case["doc"]], nperm=32, extra_seeds=case.get("perm_seeds", []))
         return
     scratch = tempfile.mkdtemp(prefix="c15-")
     job = {k: v for k, v in case.items() if k != "hashseeds"}
